@@ -179,6 +179,13 @@ def main():
                 m = json.load(open(meta))
             except Exception:
                 m = {}
+            try:
+                oldv = json.load(open(d + "/meta.json")).get("verification", {})
+                for k, v in (oldv.get("detection") or {}).items():
+                    res.setdefault("detection", {}).setdefault(k, v)  # keep results of checks not re-run now
+                res["detected"] = any(x.get("rc") == 1 for x in res.get("detection", {}).values())
+            except Exception:
+                pass
             m["verification"] = res
             json.dump(m, open(d + "/meta.json", "w"), indent=1)
         elif res.get("demo_ok"):
